@@ -148,6 +148,20 @@ def run(tier, replay=None):
     coverage["statements_not_proved"] = ["C10_margin_collapsing_spec_statement (refuted: C10_margin_collapsing_refuted; proved on the domain no_through_first: C10_margin_collapsing_partial)"]
     if props["axioms"]:
         assumptions.append("axioms reported by Print Assumptions: " + ", ".join(props["axioms"]))
+    files, hits = corr.audit(pid)
+    coverage["coq_files_in_closure"] = files
+    coverage["audit_forbidden_constructs"] = hits
+    if hits:
+        proofs_ok = False
+        coverage["discharged"] = 0
+        props["log"] = "forbidden constructs (Admitted/Axiom/...):\n" + "\n".join(hits)
+    if tier == "thorough" and proofs_ok:
+        chk = corr.coqchk(pid)
+        coverage["coqchk"] = {"ok": chk["ok"], "axioms": chk["axioms"], "wall_s": chk["wall_s"]}
+        if not chk["ok"]:
+            proofs_ok = False
+            coverage["discharged"] = 0
+            props["log"] = "coqchk failed:\n" + chk["tail"]
     proof_break = None
     if not proofs_ok:
         proof_break = {"broken": "Coq build / theorems of Properties/C10.v no longer check",
